@@ -210,7 +210,18 @@ class ExprBuilder:
 
     def arg(self, call, i):
         """expression of the i-th argument of a call, evaluated at the call site"""
-        return self.operand(call.args[i], at=(call.bb, len(self.body.blocks[call.bb]['st'])))
+        r = self.operand(call.args[i], at=(call.bb, len(self.body.blocks[call.bb]['st'])))
+        return self._simplify(r)
+
+    def _simplify(self, r):
+        # values flowing through `Option::map(|x| expr)` read like the equivalent match (see apply_simple_closures)
+        if r is not None and getattr(self.body, 'facts', None) is not None and 'closure:' in repr(r) and \
+                ('::map(' in _names(r) or '::and_then(' in _names(r)):
+            try:
+                return apply_simple_closures(self.body.facts, r)
+            except RecursionError:
+                return r
+        return r
 
     def _resolve_indices(self, proj, d, at):
         if not any(isinstance(p, tuple) and p[0] == 'idx' and len(p) > 1 for p in proj):
@@ -370,6 +381,11 @@ class ExprBuilder:
             return self.operand(c.args[0], proj, d + 1, at)
         return E('call', name=c.callee or '<indirect>', args=[self.operand(a, (), d + 1, at) for a in c.args],
                  site=(c.bb, 'term'), extra=c, proj=fields_of(proj))
+
+
+def _names(e):
+    return ' '.join(x.name + '(' for x in e.walk() if x.kind == 'call' and x.name and
+                    ('ption::' in x.name or 'esult::' in x.name))
 
 
 def expr_of(body, op_or_place):
@@ -1502,3 +1518,162 @@ def eval_option_paths(body, limit=4000):
 
     walk(0, {}, [], {0})
     return out
+
+
+def loop_element_paths(body, header, marks, limit=4000):
+    """for the natural loop with header `header` driven by `next()`: enumerate the acyclic paths of ONE iteration, from
+    the `Some` arm of the iterator test back to the header (or out of the loop), with constant propagation over bool
+    locals. -> [(conds, hit)] where hit = the path passes one of the blocks in `marks` (e.g. the push of a record)."""
+    blks = body.loops().get(header)
+    if not blks:
+        return []
+    succ = body.succ()
+    marks = set(marks)
+    # element start: the Some arm of the switch on next()'s result
+    start = None
+    for x in body.find_calls('std::iter::Iterator::next'):
+        if x.bb not in blks or x.target is None:
+            continue
+        tb = body.blocks[x.target]['t']
+        if tb['k'] == 'switch':
+            for tg in set(tg for _, tg in body.switch_edges(x.target)):
+                if tg in body.diverging():
+                    continue
+                cnd = Cond(body, x.target, tg)
+                if cnd.kind == 'discr' and cnd.variants == {'Some'}:
+                    start = tg
+    if start is None:
+        return []
+    out = []
+    count = [0]
+
+    def bval(env, op):
+        if op['k'] == 'const':
+            v = op['c'].get('v')
+            return v if isinstance(v, bool) else None
+        if op['k'] in ('copy', 'move') and not op['pl']['p']:
+            return env.get(op['pl']['l'])
+        return None
+
+    def walk(bb, env, conds, seen, hit):
+        if count[0] > limit:
+            return
+        env = dict(env)
+        hit = hit or bb in marks
+        for s in body.blocks[bb]['st']:
+            if s['k'] != 'assign' or s['lhs']['p']:
+                continue
+            l = s['lhs']['l']
+            rv = s['rv']
+            if rv['k'] == 'use':
+                env[l] = bval(env, rv['op'])
+            elif rv['k'] == 'un' and rv['op'] == 'Not':
+                v = bval(env, rv['a'])
+                env[l] = (not v) if isinstance(v, bool) else None
+            else:
+                env[l] = None
+        t = body.blocks[bb]['t']
+        if t['k'] == 'call' and not t['dest']['p']:
+            env[t['dest']['l']] = None
+        nxt = []
+        if t['k'] == 'switch':
+            v = bval(env, t['discr']) if t['ty'] == 'bool' else None
+            edges = body.switch_edges(bb)
+            tgts = []
+            for val, tg in edges:
+                if tg not in tgts:
+                    tgts.append(tg)
+            for tg in tgts:
+                if tg not in succ[bb]:
+                    continue
+                if isinstance(v, bool):
+                    vals = [val for val, x in edges if x == tg]
+                    is_zero_edge = '0' in vals
+                    takes = (not v) if is_zero_edge and None not in vals else (v if None in vals and '0' not in vals else None)
+                    if takes is False:
+                        continue
+                    nxt.append((tg, conds))
+                else:
+                    nxt.append((tg, conds + [Cond(body, bb, tg)]))
+        else:
+            nxt = [(s, conds) for s in succ[bb]]
+        for tg, cs in nxt:
+            if tg == header or tg not in blks:
+                count[0] += 1
+                out.append((cs, hit))
+            elif tg not in seen:
+                walk(tg, env, cs, seen | {tg}, hit)
+
+    walk(start, {}, [], {start}, False)
+    return out
+
+
+def apply_simple_closures(facts, e, depth=3):
+    """`opt.map(|w| w[0])`, `opt.and_then(..)`, `res.map(..)`: when the closure is a pure expression of its parameter the
+    call is replaced by that expression applied to the payload (`opt.as Some.0`), so a value that flows through such a
+    combinator reads like the equivalent `match` / `if let`"""
+    if depth == 0 or not isinstance(e, E):
+        return e
+
+    def subst(x, payload, upvars, cb):
+        if x.kind == 'place':
+            if x.root == ('param', 2):
+                flds = list(x.fields)
+                # closure arguments arrive as a tuple: (_2.0) is the first argument
+                if flds and flds[0] == '0':
+                    flds = flds[1:]
+                s = payload.strip() if payload.kind == 'place' else payload
+                if s.kind == 'place':
+                    return E('place', root=s.root, fields=tuple(s.fields) + tuple(flds))
+                if s.kind in ('call', 'agg'):
+                    return E(s.kind, name=s.name, args=s.args, site=s.site, extra=s.extra,
+                             proj=tuple(s.proj) + tuple(flds))
+                return payload
+            if x.root[0] == 'upvar' and x.root[1] < len(upvars):
+                u = upvars[x.root[1]]
+                s = u.strip()
+                if s.kind == 'place':
+                    return E('place', root=s.root, fields=tuple(s.fields) + tuple(x.fields))
+                return u
+            return x
+        if not x.args:
+            return x
+        return E(x.kind, name=x.name, args=[subst(a, payload, upvars, cb) if isinstance(a, E) else a for a in x.args],
+                 root=x.root, fields=x.fields, const=x.const, site=x.site, extra=x.extra, proj=x.proj)
+
+    def rec(x):
+        if not isinstance(x, E):
+            return x
+        args = [rec(a) for a in x.args] if x.args else []
+        y = E(x.kind, name=x.name, args=args, root=x.root, fields=x.fields, const=x.const, site=x.site,
+              extra=x.extra, proj=x.proj) if x.args else x
+        if y.kind == 'call' and y.name.rsplit('::', 1)[-1] in ('map', 'and_then') and len(y.args) == 2 and \
+                ('Option' in y.name or 'Result' in y.name or 'option' in y.name or 'result' in y.name):
+            clo = y.args[1]
+            if clo.kind == 'agg' and clo.name.startswith('closure:'):
+                cb = facts.closure_body(clo.name[len('closure:'):])
+                if cb is not None and len(cb.blocks) <= 12:
+                    r = ExprBuilder(cb).place(0, ())
+                    if r.kind != 'unknown':
+                        opt = y.args[0]
+                        s = opt.strip() if opt.kind == 'place' else opt
+                        if s.kind == 'place':
+                            payload = E('place', root=s.root, fields=tuple(s.fields) + ('as Some', '0'))
+                        else:
+                            payload = E(s.kind, name=s.name, args=s.args, site=s.site, extra=s.extra,
+                                        proj=tuple(s.proj) + ('as Some', '0'), root=s.root, fields=s.fields,
+                                        const=s.const)
+                        val = apply_simple_closures(facts, subst(r, payload, clo.args, cb), depth - 1)
+                        # the projections applied to the map result (`.as Some.0 ...`) continue on the value
+                        pj = [p for p in y.proj]
+                        if pj[:2] == ['as Some', '0']:
+                            pj = pj[2:]
+                        if pj:
+                            vs = val.strip() if val.kind == 'place' else val
+                            if vs.kind == 'place':
+                                return E('place', root=vs.root, fields=tuple(vs.fields) + tuple(pj))
+                            return E(vs.kind, name=vs.name, args=vs.args, site=vs.site, extra=vs.extra,
+                                     proj=tuple(vs.proj) + tuple(pj), root=vs.root, fields=vs.fields, const=vs.const)
+                        return val
+        return y
+    return rec(e)
